@@ -112,6 +112,24 @@ def assigned_names(nodes):
     return out, mutated
 
 
+class PC(list):
+    """path condition; mirrors every appended constraint into an incremental z3 solver"""
+
+    def __init__(self, axioms=()):
+        super().__init__()
+        self.solver = z3.Solver()
+        for a in axioms:
+            self.solver.add(a)
+
+    def append(self, f):
+        super().append(f)
+        self.solver.add(f)
+
+    def extend(self, fs):
+        for f in fs:
+            self.append(f)
+
+
 class Engine:
     def __init__(self, repo_prefix='pytezos', timeout_ms=None, max_paths=4000):
         self.repo_prefix = repo_prefix
@@ -127,7 +145,7 @@ class Engine:
         self.interpreted = set()
         self.frames = []
         self.inputs = {}
-        self.pc = []
+        self.pc = PC()
         self.trace, self.preset = [], []
 
     # ------------------------------------------------------------------ inputs / assumptions / obligations
@@ -163,11 +181,19 @@ class Engine:
         self.pc.append(f)
 
     def feasible(self, extra=None):
-        cs = self.axioms + self.pc + ([extra] if extra is not None else [])
         self.stats['solver_calls'] += 1
-        r = solve.check_sat(cs, min(self.timeout_ms, 5000), want_model=False, fallback=False)
-        self.stats['solver_time'] += r.time_s
-        return r.status != 'unsat'
+        t0 = time.time()
+        sv = self.pc.solver
+        sv.set('timeout', min(self.timeout_ms, 5000))
+        sv.push()
+        try:
+            if extra is not None:
+                sv.add(extra)
+            r = sv.check()
+        finally:
+            sv.pop()
+        self.stats['solver_time'] += time.time() - t0
+        return r != z3.unsat
 
     def concretize(self, model):
         out = {}
@@ -188,8 +214,11 @@ class Engine:
     def check(self, oid, goal, nontrivial=True, use_as_lemma=True):
         """Obligation: path condition |= goal.  Aggregated per oid over all paths."""
         goal = ZB(goal)
-        self.stats['solver_calls'] += 1
-        r = solve.prove(self.axioms + self.pc, goal, self.timeout_ms)
+        if z3.is_true(z3.simplify(goal)):
+            r = solve.SolveResult('unsat', None, 'simplifier', 0.0)
+        else:
+            self.stats['solver_calls'] += 1
+            r = solve.prove(self.axioms + list(self.pc), goal, self.timeout_ms)
         self.stats['solver_time'] += r.time_s
         rec = self.obl.setdefault(oid, dict(status='discharged', paths=0, time_s=0.0, backend=set(), cex=None,
                                             reason='', nontrivial=nontrivial))
@@ -211,6 +240,23 @@ class Engine:
                 rec['reason'] = r.reason
         return False
 
+    def _prove_incremental(self, goal):
+        t0 = time.time()
+        sv = self.pc.solver
+        sv.set('timeout', self.timeout_ms)
+        sv.push()
+        try:
+            sv.add(z3.Not(goal))
+            r = sv.check()
+            if r == z3.unsat:
+                return solve.SolveResult('unsat', None, 'z3', time.time() - t0)
+            if r == z3.sat:
+                return solve.SolveResult('sat', sv.model(), 'z3', time.time() - t0)
+        finally:
+            sv.pop()
+        # unknown: fresh solver, then cvc5
+        return solve.prove(self.axioms + list(self.pc), goal, self.timeout_ms)
+
     def unsupported(self, oid, why):
         rec = self.obl.setdefault(oid, dict(status='undecided', paths=0, time_s=0.0, backend=set(), cex=None,
                                             reason='', nontrivial=True))
@@ -227,7 +273,7 @@ class Engine:
             if self.stats['paths'] >= self.max_paths:
                 raise Unsupported(f'more than {self.max_paths} paths')
             self.preset = worklist.pop()
-            self.trace, self.pc, self.frames = [], [], []
+            self.trace, self.pc, self.frames = [], PC(self.axioms), []
             self._worklist = worklist
             self.stats['paths'] += 1
             try:
@@ -412,6 +458,8 @@ class Engine:
             return f.__pyvc_call__(self, args, kwargs)
         if has_sym(args) or has_sym(kwargs) or has_sym(getattr(f, '__self__', None)):
             return self.builtin(f, args, kwargs)
+        if f is next and args and isinstance(args[0], list):    # generators are materialised into lists
+            return self.builtin(f, args, kwargs)
         return self.native(f, args, kwargs)
 
     def force_obj(self, cls):
@@ -570,7 +618,7 @@ class Engine:
                 cands.append(max(0, sl.stop - (sl.start or 0)))
             for c in cands:
                 self.stats['solver_calls'] += 1
-                r = solve.prove(self.axioms + self.pc, ln == c, min(self.timeout_ms, 3000))
+                r = solve.prove(self.axioms + list(self.pc), ln == c, min(self.timeout_ms, 3000))
                 self.stats['solver_time'] += r.time_s
                 if r.status == 'unsat':
                     ln = z3.IntVal(c)
@@ -1120,7 +1168,7 @@ class Engine:
         for k, hi, lo in cands:
             side = z3.And(hi % (2 ** k) == 0, lo >= 0, lo < 2 ** k)
             self.stats['solver_calls'] += 1
-            r = solve.prove(self.axioms + self.pc, side, min(self.timeout_ms, 3000))
+            r = solve.prove(self.axioms + list(self.pc), side, min(self.timeout_ms, 3000))
             self.stats['solver_time'] += r.time_s
             if r.status == 'unsat':
                 return Sym(x + y)
